@@ -11,7 +11,7 @@ use crate::hashers::ALL_HKINDS;
 use crate::interp::{Failure, World};
 use crate::ops::*;
 use crate::runner::*;
-use crate::tracked::Cb;
+use crate::tracked::{Cb, NCB};
 
 pub struct WorkerArgs<'a> {
     pub prop: &'static str,
@@ -122,7 +122,7 @@ pub fn worker_cache_strategy(a: &WorkerArgs, strategy: proptest::strategy::Boxed
 
 /// Number of callbacks per kind the victim makes in the state the prefix
 /// leads to (counting mode).
-fn count_callbacks(pc: &PanicCase) -> Option<[u64; 9]> {
+fn count_callbacks(pc: &PanicCase) -> Option<[u64; NCB]> {
     let mut w = World::new(&pc.config, Some("C16"));
     for op in &pc.prefix {
         w.step(op);
@@ -132,7 +132,7 @@ fn count_callbacks(pc: &PanicCase) -> Option<[u64; 9]> {
             return None;
         }
     }
-    w.last_counts = [0; 9];
+    w.last_counts = [0; NCB];
     w.step(&pc.victim);
     let c = w.last_counts;
     w.leaks_allowed = true;
@@ -163,8 +163,14 @@ fn derived(pc: &PanicCase, cb: Cb, nth: u16) -> Case {
     Case { config: pc.config.clone(), ops }
 }
 
-pub fn worker_panic(a: &WorkerArgs) -> Accum {
-    let strategy = gen::panic_case();
+/// `drops`: enumerate the crash points inside *destructors* (of what the victim
+/// evicts, rejects, skips or drops) instead of those of the callbacks C16 lists.
+pub fn worker_panic(a: &WorkerArgs, drops: bool) -> Accum {
+    let strategy = gen::panic_case(drops);
+    // the faults C16 does not enumerate: destructor panics, and user code that
+    // operates another cache from inside `Hash` (counted by the `Hash` calls)
+    let kinds: Vec<Cb> = gen::PANIC_KINDS.iter().copied().filter(|k| (k.is_drop() || *k == Cb::Reenter) == drops).collect();
+    let count_of = |counts: &[u64; NCB], cb: Cb| if cb == Cb::Reenter { counts[Cb::Hash.idx()] } else { counts[cb.idx()] };
     let acc = RefCell::new(Accum::default());
     let failed = RefCell::new(false);
     let last_fail: RefCell<Option<(Case, Failure)>> = RefCell::new(None);
@@ -180,8 +186,8 @@ pub fn worker_panic(a: &WorkerArgs) -> Accum {
                 return Ok(());
             },
         };
-        for cb in gen::PANIC_KINDS {
-            for n in crash_points(counts[cb.idx()]) {
+        for &cb in &kinds {
+            for n in crash_points(count_of(&counts, cb)) {
                 let case = derived(&pc, cb, n as u16);
                 write_current(a.out, &case.to_text());
                 let out = run_case(&case, Some(prop), false);
@@ -225,8 +231,8 @@ pub fn worker_panic(a: &WorkerArgs) -> Accum {
             // find the failing injection point of the minimal case again
             let mut found = None;
             if let Some(counts) = count_callbacks(&pc) {
-                'outer: for cb in gen::PANIC_KINDS {
-                    for n in crash_points(counts[cb.idx()]) {
+                'outer: for &cb in &kinds {
+                    for n in crash_points(count_of(&counts, cb)) {
                         let case = derived(&pc, cb, n as u16);
                         let out = run_case(&case, Some(prop), true);
                         if let Verdict::Violation(f) = judge(&out.fails, prop, a.known) {
@@ -360,6 +366,11 @@ pub fn worker_walks(a: &WorkerArgs, fate: Fate, max_len: usize, extra: usize) ->
                 let hasher = ALL_HKINDS[(salt % 9) as usize];
                 let capacity = CAPACITIES[((salt >> 8) % 9) as usize];
                 let mut ops = build_ops(len, salt);
+                // finishing consumers: also with the consumer's closure unwinding (at its
+                // first, second or last item, chosen by the case number)
+                let fate = if positional && rest.finishing() && fate == Fate::Drop && n % 3 == 0 {
+                    Fate::Unwind(match (n / 3) % 3 { 0 => 0, 1 => 1, _ => len.saturating_sub(1).min(200) as u8 })
+                } else { fate };
                 ops.push(Op::IterWalk { kind, calls: calls.clone(), rest: *rest, fate });
                 // further use
                 ops.push(Op::Insert { key: KeySel::Absent(0), kheap: 0, size: SizeSel::Abs(1) });
@@ -554,6 +565,81 @@ pub fn worker_mem_big(a: &WorkerArgs) -> Accum {
     acc
 }
 
+// ------------------------------------------------- std value types
+
+pub fn stdvals_case_text(ty: &str, bytes: &[u8]) -> String {
+    format!("stdvals type={} bytes={}\n", ty.replace(' ', ""), if bytes.is_empty() { "-".to_string() } else { hex(bytes) })
+}
+
+pub fn run_stdvals_line(line: &str) -> Result<(String, Vec<MemFailure>), String> {
+    let t: Vec<&str> = line.split_whitespace().collect();
+    let get = |k: &str| t.iter().find_map(|x| x.strip_prefix(k));
+    let name = get("type=").ok_or("no type")?;
+    let bytes = match get("bytes=").ok_or("no bytes")? { "-" => vec![], h => unhex(h).ok_or("bad hex")? };
+    let ty = crate::stdvals::STDVAL_TYPES.iter().find(|t| t.replace(' ', "") == name).ok_or_else(|| format!("unknown type {}", name))?;
+    let o = crate::stdvals::run_stdvals(ty, &bytes).ok_or("unknown type")?;
+    Ok((format!("{} with {} bytes: {} steps", ty, bytes.len(), o.steps), o.fails))
+}
+
+/// The cache over std value types measured by the crate's own estimates.
+pub fn worker_stdvals(a: &WorkerArgs) -> Accum {
+    use proptest::prelude::*;
+    let types = crate::stdvals::STDVAL_TYPES;
+    let strategy = (0..types.len(), proptest::collection::vec(any::<u8>(), 0..260));
+    let acc = RefCell::new(Accum::default());
+    let failed = RefCell::new(false);
+    let prop = a.prop;
+    let mut runner = TestRunner::new(pt_config(a.cases, derive_seed(a.seed, a.index, 23)));
+    let result = runner.run(&strategy, |(ti, bytes)| {
+        let ty = types[ti];
+        write_current(a.out, &stdvals_case_text(ty, &bytes));
+        let o = crate::stdvals::run_stdvals(ty, &bytes).unwrap();
+        let mine: Vec<&MemFailure> = o.fails.iter().filter(|f| f.tags.contains(&prop)).collect();
+        if let Some(f) = mine.iter().find(|f| is_known(a.known, prop, &f.sig).is_none()) {
+            *failed.borrow_mut() = true;
+            return Err(TestCaseError::fail(format!("[{}] {}", f.sig, f.msg)));
+        }
+        if !*failed.borrow() {
+            let mut acc = acc.borrow_mut();
+            acc.cases += 1;
+            acc.steps += o.steps;
+            if let Some(f) = mine.first() {
+                *acc.known.entry(f.sig.clone()).or_insert(0) += 1;
+            }
+            else if let Some(f) = o.fails.first() {
+                *acc.foreign.entry(format!("{}:{}", f.tags.join("+"), f.sig)).or_insert(0) += 1;
+            }
+            for (k, v) in &o.events { *acc.events.entry(k.clone()).or_insert(0) += v; }
+            if o.events.contains_key("std.mutate.resized") || o.events.contains_key("std.mutate.overflow") {
+                acc.nt_cases += 1;
+                let sig = format!("std|{}|{}", ty, if o.events.contains_key("std.mutate.overflow") { "overflow" } else { "resized" });
+                let new = acc.nt.insert(sig);
+                if acc.samples.is_empty() || (new && acc.samples.len() < 4) {
+                    acc.samples.push(stdvals_case_text(ty, &bytes).trim().to_string());
+                }
+            }
+        }
+        Ok(())
+    });
+    let mut acc = acc.into_inner();
+    match result {
+        Ok(()) => { },
+        Err(TestError::Fail(_, (ti, bytes))) => {
+            let ty = types[ti];
+            let o = crate::stdvals::run_stdvals(ty, &bytes).unwrap();
+            let f = o.fails.iter().find(|f| f.tags.contains(&prop));
+            acc.violations.push(Violation {
+                replay_text: format!("# replay for property {}\n# {}\n{}", prop,
+                    f.map(|f| format!("[{}] {}", f.sig, f.msg)).unwrap_or_default(), stdvals_case_text(ty, &bytes)),
+                msg: f.map(|f| f.msg.clone()).unwrap_or_default(),
+                sig: f.map(|f| f.sig.clone()).unwrap_or_default(),
+            });
+        },
+        Err(TestError::Abort(r)) => acc.notes.push(format!("proptest aborted: {}", r)),
+    }
+    acc
+}
+
 // ------------------------------------------------- more than 2^16 entries
 
 /// Generated scripts of bulk steps over caches of 65 536 .. 300 000 entries
@@ -633,7 +719,7 @@ pub fn probe_replay_text(prop: &str, r: &crate::probes::ProbeResult, seed: u64, 
 pub fn worker_probes(a: &WorkerArgs, root: &Path) -> Accum {
     let mut acc = Accum::default();
     let nestings = if a.thorough { 16 } else { 4 };
-    let run = match crate::probes::run_all(root, Path::new("/repo"), a.seed, nestings) {
+    let run = match crate::probes::run_all(root, &crate::probes::repo_path(), a.seed, nestings) {
         Ok(r) => r,
         Err(e) => {
             acc.notes.push(format!("INCONCLUSIVE: {}", e));
